@@ -1,6 +1,7 @@
-(* extraction of the C09 executable model (Model/Server.v); ExtrOcamlBasic only *)
+(* extraction of the C09 executable model (Model/Server.v, Model/C09Batch.v); ExtrOcamlBasic only *)
 Require Extraction.
 Require Import ExtrOcamlBasic.
-Require Import Base Server.
+Require Import Base Server C09Batch.
 Extraction Language OCaml.
-Extraction "../ocaml/gen/c09_model.ml" model_krun model_run world0 set_disk set_udict set_fdict lastword expected freshb pub_eqb quiescentb observe.
+Extraction "../ocaml/gen/c09_model.ml" model_krun model_run world0 set_disk set_udict set_fdict lastword expected freshb pub_eqb quiescentb observe
+  batch_krun kexpand trace shape_verdict close_overtaken open_overtaken astate0 client_after sess_ok init_okb batch_op.
